@@ -7,7 +7,7 @@ from vf.core import cstr, cZ, cbool, clist, copt, cpair
 PID = "C12"
 MODULES = ["Prelude", "C12_Model", "C12_Spec", "C12_Check"]
 PROPS_MODULE = "C12_Properties"
-THEOREMS = ["C12_answer_provenance", "C12_source_meaning", "C12_unavailable_denies", "C12_no_shared_entry",
+THEOREMS = ["C12_answer_provenance", "C12_source_meaning", "C12_unavailable_denies", "C12_no_shared_entry", "C12_owner_cache_only",
             "C12_own_cluster", "C12_other_clusters_not_asked", "C12_overlap_commutes",
             "C12_dispatch_cluster_is_review_cluster", "C12_same_cluster_history", "C12_history"]
 EVAL = "C12_Check.eval"
@@ -339,6 +339,41 @@ def corpus():
     return cs
 
 
+class RegSim:
+    """the generator's copy of the registry semantics (C12_Model.ep_apply), used only to pick overlap partners of
+    different clusters and sensible move / delete / re-create operations; the model decides what happens"""
+
+    def __init__(self, reg):
+        self.reg = {}
+        for k, v in reg:
+            self.reg.setdefault(k, v)
+
+    def of(self, h):
+        return None if h is None else self.reg.get(h.lower())
+
+    def live(self, c):
+        return self.reg.get(c) == c
+
+    def apply(self, o):
+        k = o["op"]
+        if k == "name":
+            h = o["host"].lower()
+            if self.live(o["c"]) and self.reg.get(h) is None:
+                self.reg[h] = o["c"]
+        elif k == "unname":
+            h = o["host"].lower()
+            if h != o["c"] and self.reg.get(h) == o["c"]:
+                self.reg[h] = None
+        elif k == "delete":
+            if self.live(o["c"]):
+                for h in list(self.reg):
+                    if self.reg[h] == o["c"]:
+                        self.reg[h] = None
+        elif k == "recreate":
+            if self.reg.get(o["c"]) is None:
+                self.reg[o["c"]] = o["c"]
+
+
 # ------------------------------------------------------------------ generated stream
 def gen_case(rng, tier):
     ncl = rng.choice([2, 2, 2, 3])
@@ -398,9 +433,7 @@ def gen_case(rng, tier):
     with_moves = rng.chance(1, 4)
     if with_moves:
         hosts = hosts + ["vanity"]
-    names_now = {k: v for k, v in reg}          # the generator's own view of the registry (the model decides)
-    names_now.setdefault("vanity", None)
-    dead = set()
+    sim = RegSim(reg)
     with_overlap = rng.chance(1, 8)
     with_chain = rng.chance(1, 5)
     with_lists = rng.chance(1, 4)
@@ -438,7 +471,7 @@ def gen_case(rng, tier):
             if with_overlap and rng.chance(1, 4):
                 # a second host of ANOTHER cluster (or of none) for an overlapping request with the same key
                 others = [x for x in hosts + ["nowhere"]
-                          if x != h and (_cluster_of(cfg, x) != _cluster_of(cfg, h) or _cluster_of(cfg, x) is None)]
+                          if x != h and (sim.of(x) != sim.of(h) or sim.of(x) is None)]
                 h2 = rng.choice(others) if others else None
             if h2 is not None:
                 if rng.chance(1, 2):
@@ -470,40 +503,33 @@ def gen_case(rng, tier):
         elif with_moves and k < 96 and (not with_lists or rng.chance(1, 2)):
             # server names move between running clusters; clusters are deleted and created again
             r = rng.below(10)
-            alive = [c for c in cls if c not in dead]
-            movable = [h for h in names_now if h not in cls]
-            if r < 4 and movable and len(alive) >= 1:
+            alive = [c for c in cls if sim.live(c)]
+            dead = [c for c in cls if not sim.live(c)]
+            movable = [h for h in sorted(sim.reg) if h not in cls] + ["vanity"]
+            new = []
+            if r < 4 and alive:
                 h = rng.choice(movable)
-                x, y = names_now[h], rng.choice(alive)
-                ops.extend(move(h, x, y) if x else [name(y, h)])
-                names_now[h] = y
-            elif r < 5 and movable:
+                x, y = sim.of(h), rng.choice(alive)
+                new = move(h, x, y) if x else [name(y, h)]
+            elif r < 5:
                 h = rng.choice(movable)
-                ops.append(unname(names_now[h] or rng.choice(cls), h))
-                names_now[h] = None
+                new = [unname(sim.of(h) or rng.choice(cls), h)]
             elif r < 6:
-                ops.append(name(rng.choice(cls), rng.choice(list(names_now))))      # mostly rejected: the name is taken
+                new = [name(rng.choice(cls), rng.choice(movable + cls))]                 # mostly rejected: the name is taken
             elif r < 8 and alive:
-                c = rng.choice(alive)
-                ops.append(delete(c))
-                dead.add(c)
-                for h in names_now:
-                    if names_now[h] == c:
-                        names_now[h] = None
+                new = [delete(rng.choice(alive))]
             elif dead:
-                c = rng.choice(sorted(dead))
-                ops.append(recreate(c))
-                dead.discard(c)
-                names_now[c] = c
+                c = rng.choice(dead)
+                new = [recreate(c)]
                 if lists[c]:
-                    ops.append(healthy_srv(rng.choice(lists[c])))
-                if movable and rng.chance(1, 2):
-                    h = rng.choice(movable)
-                    if names_now[h] is None:
-                        ops.append(name(c, h))
-                        names_now[h] = c
+                    new.append(healthy_srv(rng.choice(lists[c])))
+                if rng.chance(1, 2):
+                    new.append(name(c, rng.choice(movable)))
             else:
-                ops.append(recreate(rng.choice(cls)))                               # no-op: it is alive
+                new = [recreate(rng.choice(cls))]                                       # no-op: it is alive
+            for o in new:
+                sim.apply(o)
+            ops.extend(new)
         elif with_lists and k < 96:
             # the clusters' server lists change: remove / add / re-home (remove from one cluster, add to another)
             owned = [(c, s) for c in cls for s in lists[c]]
